@@ -28,6 +28,8 @@ def _run_rules(ctx, report):
         report.guard("C18.CAP", S.slot, ctx, report, "C18.CAP", facts, config)
         report.guard("C18.ARITH", B.arith, ctx, report, "C18.ARITH", facts, config)
         report.guard("C18.LOCKSTEP", S.lockstep, ctx, report, "C18.LOCKSTEP", facts, config)
+        from .. import placement as _PL
+        report.guard("C18.TOTAL", _PL.intersect_body, ctx, report, "C18.TOTAL", facts, config)
         report.guard("C18.NOEXTRA", B.noextra, ctx, report, "C18.NOEXTRA", facts, config)
 
 
